@@ -137,7 +137,7 @@ def main():
             if run(f'/venv/bin/python -m py_compile {wt}/{path}').returncode != 0:
                 continue
             t = run(f'cd {wt} && timeout 300 /venv/bin/python -m pytest -q -x -p no:cacheprovider --timeout=120 tests '
-                    f'--deselect tests/server/test_compaction.py::test_compaction 2>&1 | tail -1')
+                    f'-k "not test_compaction" 2>&1 | tail -1')
             if ' failed' in t.stdout or 'error' in t.stdout.lower():
                 continue                      # killed by the repository's own suite
             done += 1
